@@ -469,7 +469,8 @@ CHECKS["C20"] = dict(
            dict(name="TestEnumServerStop", rapid=False, quick=1, thorough=1)],
     rule="the whole harness and every simpleiot package are compiled with -race. Per case 4-10 workers, each with its own bus "
          "connection and a drawn program of 20-60 operations: node-point and edge-point writes to three shared nodes (one "
-         "mirrored) with globally distinct generated timestamps, reads, admin.storeVerify, node creation, drawn Gosched / "
+         "mirrored) with globally distinct generated timestamps, reads, admin.storeVerify, admin.storeMaint, logins "
+         "(auth.user), node creation, drawn Gosched / "
          "microsecond pauses; in the rootChurn class (about 25%) one worker keeps inserting a new root (the import-at-root "
          "path) while the others mostly read nodes.root.all; GOMAXPROCS drawn from {1,2,4,8,16}; in about 25% of the cases "
          "Store.Stop is called in the middle of the load. Oracle: every request is answered while the store runs (20 s); a "
